@@ -131,7 +131,7 @@ def ob_point_erase(k, shrink, timeout):
                 "replace": "timestamp >= cropStart and timestamp < cropEnd",
             }
         ]
-        if (shrink and k == 2)
+        if (not shrink and k == 2)  # attached to the non-shrinking obligation (the shrinking one does not kill it)
         else [],
         funcs=FUNCS[2:3],
         bounds="k=%d points, region anywhere in the span incl. a>=b" % k,
